@@ -1071,3 +1071,261 @@ def rule_traversal_total(db: ProgramDB) -> List[Instance]:
     if n == 0:
         raise AnalysisError("no recursive traversal over self._children_ found")
     return out
+
+
+# ---------------------------------------------------------------------------------- EVAL-FLAG
+def rule_eval_flag(db: ProgramDB) -> List[Instance]:
+    """Scalar flags a node sets on ITSELF while it is evaluated and reads back through `self` (which side of a union produced
+    the row, 'the kwargs expression is being evaluated') are per-evaluation state like the containers: what an abandoned
+    evaluation leaves in them must not be read by the next one.  For every such flag either
+      (a) every evaluation function that reads it assigns it first on every path (in itself, at the start of the generator
+          it iterates, or in the only functions that call it), or
+      (b) every assignment of a non-default value is followed, on every normal / exceptional / generator-close exit, by the
+          assignment back to the default (a bracket closed in a finally), or
+      (c) the per-evaluation reset assigns it."""
+    out = []
+    cg = CallGraph(db)
+    ev_fns, _ = evaluation_functions(db, cg)
+    se = db.cls("SymbolicExpression")
+    n = 0
+    for cls in sorted(se.all_subclasses(), key=lambda c: c.qualname):
+        for fld in cls.own_fields:
+            if fld.classvar or fld.default_is_factory or not isinstance(fld.default, ast.Constant) or not isinstance(fld.default.value, bool):
+                continue
+            F = fld.name
+            default = fld.default.value
+            users = [db.functions[q] for q in sorted(ev_fns) if db.functions[q].cls is not None and
+                     (db.functions[q].cls.is_subclass_of(cls) or cls.is_subclass_of(db.functions[q].cls.name))]
+
+            def self_attr(x, ctx):
+                return isinstance(x, ast.Attribute) and x.attr == F and isinstance(x.value, ast.Name) and x.value.id == "self" and isinstance(x.ctx, ctx)
+            writers = [(f, a) for f in users for a in own_nodes(f.node) if isinstance(a, ast.Assign) and any(self_attr(t, ast.Store) for t in a.targets)
+                       and isinstance(a.value, ast.Constant)]
+            readers = [(f, x) for f in users for x in own_nodes(f.node) if self_attr(x, ast.Load)]
+            foreign = [f for f in db.all_functions() for x in own_nodes(f.node) if isinstance(x, ast.Attribute) and x.attr == F
+                       and not (isinstance(x.value, ast.Name) and x.value.id == "self")]
+            if not writers or not readers or foreign:
+                continue
+            writers = [(f, a) for f, a in writers if f.name not in ("_reset_only_my_cache_", "_reset_cache_", "__post_init__")]
+            if not writers:
+                continue
+            n += 1
+            key = f"{cls.name}.{F}"
+            # (c)
+            if any(F in reset_chain_assigns(db, s) for s in [cls] + cls.all_subclasses() if s.lookup("_reset_only_my_cache_")) and \
+                    all(F in reset_chain_assigns(db, s) for s in [cls] + cls.all_subclasses()):
+                out.append(inst("EVAL-FLAG", HOLDS, cls, key, "assigned by the per-evaluation reset", line=fld.lineno))
+                continue
+            # (b)
+            bracket_ok = True
+            why_b = ""
+            for f, a in writers:
+                if a.value.value == default:
+                    continue
+                cfg = CFG(f)
+                opens = [nd for nd in cfg.nodes if nd.ast is a]
+                if not opens:
+                    continue
+
+                def closes(nd, default=default):
+                    x = nd.ast
+                    return nd.kind == "stmt" and isinstance(x, ast.Assign) and any(self_attr(t, ast.Store) for t in x.targets) \
+                        and isinstance(x.value, ast.Constant) and x.value.value == default
+                exits = {cfg.exit, cfg.raise_exit, cfg.closed_exit} if hasattr(cfg, "raise_exit") else {cfg.exit}
+                p = cfg.find_path(opens[0].id, lambda nd: nd.kind in ("exit", "raise", "closed"), kinds=("n", "e", "s"), blocked=closes,
+                                  edge_ok=cfg.no_cleanup_exc)
+                if p is not None:
+                    bracket_ok = False
+                    why_b = f"`{unparse(a)}` in {f.short} (line {a.lineno}) can be left standing: " + " ".join(cfg.describe_path(p)[-2:])
+            if bracket_ok:
+                out.append(inst("EVAL-FLAG", HOLDS, cls, key, "every non-default value is withdrawn on every exit of the function that sets it", line=fld.lineno))
+                continue
+            # (a)
+            def entry_assigns(g: FuncInfo, for_cls: ClassInfo) -> bool:
+                """g, run on an object of class for_cls, assigns self.F on every path before its first yield / before it returns"""
+                from ..facts import cache_switch_value_for
+                cfg = CFG(g)
+
+                def is_w(nd):
+                    x = nd.ast
+                    return nd.kind == "stmt" and isinstance(x, ast.Assign) and any(self_attr(t, ast.Store) for t in x.targets)
+
+                def edge_ok(e):
+                    # a branch taken only when this class serves rows from its caches is dead for a class that never does
+                    src = cfg.nodes[e.src]
+                    if e.label == "T" and src.kind == "test" and hasattr(src.stmt, "test"):
+                        t = src.stmt.test
+                        conj = t.values if isinstance(t, ast.BoolOp) and isinstance(t.op, ast.And) else [t]
+                        for c in conj:
+                            if isinstance(c, ast.Call) and isinstance(c.func, ast.Attribute) and isinstance(c.func.value, ast.Name) \
+                                    and c.func.value.id == "self" and not c.args and cache_switch_value_for(db, for_cls, c.func.attr) == "off":
+                                return False
+                    return True
+                p = cfg.find_path(cfg.entry, lambda nd: nd.has_yield or nd.kind in ("exit", "return"), kinds=("n",), blocked=is_w, edge_ok=edge_ok)
+                return p is None
+            bad_reader = None
+            for f, x in readers:
+                cfg = CFG(f)
+                rd = [nd for nd in cfg.nodes if nd.ast is not None and any(y is x for y in ast.walk(nd.ast if nd.kind not in ("test", "for") else
+                                                                                                     (nd.stmt.test if nd.kind == "test" and hasattr(nd.stmt, "test") else nd.stmt.iter)))]
+                if not rd:
+                    continue
+
+                def is_init(nd):
+                    a = nd.ast
+                    if nd.kind == "stmt" and isinstance(a, ast.Assign) and any(self_attr(t, ast.Store) for t in a.targets):
+                        return True
+                    # a loop over (or a call of) one of the object's own generators / methods that assigns the flag at its start
+                    scan = nd.stmt.iter if nd.kind == "for" else (a if nd.kind == "stmt" else None)
+                    if scan is not None:
+                        for c in ast.walk(scan):
+                            if isinstance(c, ast.Call) and isinstance(c.func, ast.Attribute):
+                                recv = c.func.value
+                                callee = None
+                                if isinstance(recv, ast.Name) and recv.id == "self" and f.cls:
+                                    callee = f.cls.lookup(c.func.attr)
+                                elif isinstance(recv, ast.Call) and isinstance(recv.func, ast.Name) and recv.func.id == "super" and f.cls:
+                                    for k in f.cls.mro[1:]:
+                                        if c.func.attr in k.methods:
+                                            callee = k.methods[c.func.attr]
+                                            break
+                                if callee is not None and callee.qualname != f.qualname and entry_assigns(callee, f.cls):
+                                    return True
+                            if isinstance(c, ast.Name) and nd.kind == "for":
+                                for d in local_defs(f).get(c.id, []):
+                                    if isinstance(d, ast.Call) and isinstance(d.func, ast.Attribute) and isinstance(d.func.value, ast.Call) \
+                                            and isinstance(d.func.value.func, ast.Name) and d.func.value.func.id == "super" and f.cls:
+                                        for k in f.cls.mro[1:]:
+                                            if d.func.attr in k.methods:
+                                                if entry_assigns(k.methods[d.func.attr], f.cls):
+                                                    return True
+                                                break
+                    return False
+                p = cfg.find_path(cfg.entry, lambda nd: nd.id == rd[0].id, kinds=("n",), blocked=is_init)
+                if p is None:
+                    continue
+                # the reader is a helper: every call site of it (self.<reader>(…)) is preceded by an assignment in its caller
+                callers = [(g, c) for g in users for c in own_calls(g) if isinstance(c.func, ast.Attribute) and c.func.attr == f.name
+                           and isinstance(c.func.value, ast.Name) and c.func.value.id == "self" and g.qualname != f.qualname]
+                helper_ok = bool(callers)
+                for g, c in callers:
+                    gcfg = CFG(g)
+                    cn = [nd for nd in gcfg.nodes if nd.ast is not None and any(y is c for y in ast.walk(nd.ast))]
+
+                    def is_w(nd):
+                        a = nd.ast
+                        return nd.kind == "stmt" and isinstance(a, ast.Assign) and any(self_attr(t, ast.Store) for t in a.targets)
+                    if not cn or gcfg.find_path(gcfg.entry, lambda nd: nd.id == cn[0].id, kinds=("n",), blocked=is_w) is not None:
+                        helper_ok = False
+                if not helper_ok:
+                    bad_reader = (f, x)
+                    break
+            ok = bad_reader is None
+            out.append(inst("EVAL-FLAG", HOLDS if ok else VIOLATION, cls, key,
+                            "every evaluation function that reads the flag assigns it first (itself, or the generator it iterates, or its callers)" if ok else
+                            f"{why_b}; and `{bad_reader[0].short}` (line {bad_reader[1].lineno}) reads the flag without it having been assigned in "
+                            f"this evaluation, and the per-evaluation reset does not assign it either: what an abandoned (or simply an earlier) "
+                            f"evaluation left in it decides what this one does", line=fld.lineno))
+    if n == 0:
+        raise AnalysisError("no self-read evaluation flag found")
+    return out
+
+
+# ---------------------------------------------------------------------------------- CACHED-POSITION-RESET
+def rule_cached_position_reset(db: ProgramDB) -> List[Instance]:
+    """A method whose result is memoised per node (functools.lru_cache) and depends on WHERE the node sits (it reads
+    `self._parent_`) is only valid for the tree it was first called in.  The tree around a node changes between evaluations
+    (a sub-query evaluated on its own and then nested, a rule tree that gets another branch), so the memo has to be dropped
+    with the per-evaluation state."""
+    out = []
+    se = db.cls("SymbolicExpression")
+    names: Dict[str, List[FuncInfo]] = {}
+    for c in [se] + se.all_subclasses():
+        for m in c.methods.values():
+            if m.cls is not c or not any("lru_cache" in d or d.endswith("cache") for d in m.decorators):
+                continue
+            if any(isinstance(x, ast.Attribute) and x.attr == "_parent_" and isinstance(x.value, ast.Name) and x.value.id == "self"
+                   for x in own_nodes(m.node)):
+                names.setdefault(m.name, []).append(m)
+    if not names:
+        raise AnalysisError("no memoised method that depends on the position of the node in the tree found")
+    resets = [m for c in [se] + se.all_subclasses() for n, m in c.methods.items() if n == "_reset_only_my_cache_" and m.cls is c]
+    root_reset = se.methods.get("_reset_only_my_cache_")
+    for name, impls in sorted(names.items()):
+        cleared = False
+        for r in ([root_reset] if root_reset else []):
+            src = unparse(r.node)
+            if "cache_clear" in src and name in src:
+                cleared = True
+        out.append(inst("CACHED-POSITION-RESET", HOLDS if cleared else VIOLATION, impls[0], f"{name}[memo dropped by the reset]",
+                        f"{len(impls)} memoised implementation(s) read self._parent_; SymbolicExpression._reset_only_my_cache_ drops the memo" if cleared else
+                        f"{len(impls)} implementation(s) of `{name}` are memoised with lru_cache and read self._parent_, and no reset drops the memo: "
+                        f"the duplicate-suppression keys computed for the tree of the first evaluation are reused after the node got another "
+                        f"parent (a sub-query evaluated alone and then nested) or the tree another branch, and rows are lost"))
+    return out
+
+
+# ---------------------------------------------------------------------------------- RESET-REACHES-EVALUATED
+NOT_RESET_BY_DESIGN = {
+    ("Variable", "_domain_source_"): "a domain given as a sub-query is evaluated once, lazily, and memoised across evaluations (the property "
+                                     "names the memo as persistent); resetting the sub-query while its generator is suspended would corrupt it",
+}
+
+
+def rule_reset_reaches_evaluated(db: ProgramDB) -> List[Instance]:
+    """The per-evaluation reset and the cache invalidation walk the node graph (`_children_`).  Every sub-expression a node
+    EVALUATES therefore has to be linked below it in that graph when the node is built (`_update_children_` /
+    `_update_child_`), otherwise the state that evaluating it leaves behind (duplicate-suppression sets of an or_ inside a
+    sub-query, result caches) is never reset: an expression that is only selected, not part of the conditions."""
+    from ..evalsites import site_model
+    out = []
+    model = site_model(db)
+    se = db.cls("SymbolicExpression")
+    per_class: Dict[str, Set[str]] = {}
+    for s in model.sites:
+        if s.fn.cls is None or not s.fn.cls.is_subclass_of(se):
+            continue
+        for o in s.origins:
+            if o.startswith("self."):
+                fname = o[5:].split("[")[0].split(".")[0]
+                owner = None
+                for k in s.fn.cls.mro:
+                    if any(f.name == fname for f in k.own_fields):
+                        owner = k
+                if owner is not None:
+                    per_class.setdefault(owner.name, set()).add(fname)
+    if not per_class:
+        raise AnalysisError("no evaluated field found")
+
+    def linked(cls: ClassInfo, fname: str) -> bool:
+        for k in [cls] + cls.all_subclasses() + list(cls.mro):
+            for m in k.methods.values():
+                for c in own_calls(m):
+                    a = call_attr(c)
+                    if a in ("_update_children_", "_update_child_", "_replace_expression_with_"):
+                        # _replace_expression_with_: the expression takes the node's own place in the graph
+                        args = list(c.args) + [kw.value for kw in c.keywords]
+                        if not args and a == "_update_child_" and fname == "_child_":
+                            return True
+                        for x in args:
+                            if any(isinstance(y, ast.Attribute) and y.attr == fname and isinstance(y.value, ast.Name) and y.value.id == "self"
+                                   for y in ast.walk(x)):
+                                return True
+        return False
+    n = 0
+    for cname, fields in sorted(per_class.items()):
+        cls = db.cls(cname)
+        for fname in sorted(fields):
+            # alias properties (ForAll.variable -> left) are resolved by the site model already
+            n += 1
+            if (cname, fname) in NOT_RESET_BY_DESIGN:
+                out.append(inst("RESET-REACHES-EVALUATED", INFO, cls, f"{cname}.{fname}[linked below the node]",
+                                f"frozen exception: {NOT_RESET_BY_DESIGN[(cname, fname)]}"))
+                continue
+            ok = linked(cls, fname)
+            out.append(inst("RESET-REACHES-EVALUATED", HOLDS if ok else VIOLATION, cls, f"{cname}.{fname}[linked below the node]",
+                            "the evaluated sub-expression is linked below the node when it is built, so the reset and the cache invalidation reach it" if ok else
+                            f"`{cname}` evaluates `self.{fname}` but never links it below itself in the node graph: an expression that occurs there only "
+                            f"(a selected attribute of a sub-query, a selected concatenation) is not reached by _reset_cache_ / "
+                            f"_clear_result_caches_, and the duplicate-suppression state of an or_ inside it survives into the next evaluation"))
+    return out
